@@ -131,7 +131,7 @@ Proof. exact v_claim_succeeds. Qed.
    the harness in every run (scripted history, counter
    stakes_into_vault_with_dust_but_zero_unit_supply); values below are from that replay. *)
 Theorem C42_stake_into_dust_with_zero_supply_mints_nothing :
-  stake 5000000000000000000 22 0 = Some (0, 5000000000000000022, 0) /\
+  stake 5000000000000000000 1 0 = Some (0, 5000000000000000001, 0) /\
   forall x v, 0 <= x -> 0 < v -> forall m, stake_units x v 0 = Some m -> m = 0.
 Proof.
   split; [vm_compute; reflexivity|].
